@@ -95,12 +95,15 @@ PROPS["C08"] = dict(
 PROPS["C09"] = dict(
     MIGRATE,
     runs={
-        "quick": [dict(harness="VerifHarness_C09_quick", reach=["clean-run", "stmt-fault", "write-fault", "two-write-faults"])],
-        "thorough": [dict(harness="VerifHarness_C09_thorough", reach=["clean-run", "stmt-fault", "write-fault", "two-write-faults"])],
+        "quick": [dict(harness="VerifHarness_C09_quick", reach=["clean-run", "stmt-fault", "write-fault", "two-write-faults"]),
+                  dict(harness="VerifHarness_C09_ckpt", reach=["clean-run", "stmt-fault", "write-fault", "checkpoint"])],
+        "thorough": [dict(harness="VerifHarness_C09_thorough", reach=["clean-run", "stmt-fault", "write-fault", "two-write-faults"]),
+                     dict(harness="VerifHarness_C09_ckpt", reach=["clean-run", "stmt-fault", "write-fault", "checkpoint"])],
     },
     bounds={
         "quick": "1..2 files x 1..3 statements; two faulty ExecuteN runs then a clean one; in each faulty run the index of the failing store "
-                 "operation (statement execution or revision write, or none) is a symbolic integer",
+                 "operation (statement execution or revision write, or none) is a symbolic integer; checkpoint family: 1..3 files x 1..2 statements, any one "
+                 "file (or none) a checkpoint, one faulty run then a clean one",
         "thorough": "1..3 files x 1..3 statements; two faulty runs (symbolic failing operation index each) then a clean run; unsat answers cross-checked",
     },
     assumptions=[
